@@ -364,6 +364,8 @@ fn run_history(rec: &mut Rec, rng: &mut Rng, cfg: Cfg, descr: &str) -> Sim {
 }
 
 fn common_checks(rec: &mut Rec, sim: &mut Sim, prop: &'static str) {
+    // at the end of the history the kernel model must also predict the (usually empty) ready set
+    sim.w.kern_probe(rec);
     for i in 0..sim.w.clients.len() {
         check_client_stream(rec, sim, i, prop);
     }
